@@ -117,6 +117,29 @@ static void run_case(Case &c)
     }
     cap.clear();
 
+    // optional pre-history on the same instance: play the song (to its end, or part of it incl. jumps), then rewind or seek to 0;
+    // the measured playback below must then behave like the first one (passes left, callbacks, loop start)
+    {
+        int prehist = (int)r.below(4);
+        if(prehist)
+        {
+            double len0 = 0; API("opn2_totalTimeLength", len0 = opn2_totalTimeLength(d));
+            bool whole = (prehist == 1 && passes >= 0);
+            double limit = whole ? 1e18 : r.unit() * len0 * (double)(passes < 0 ? 2 : passes);
+            double dly = 0, acc = 0; long g2 = 0; bool end0 = false;
+            while(g2++ < 200000 && acc <= limit && cap.ev.size() < 60000)
+            {
+                double nd = 0; API("opn2_tickEvents", nd = opn2_tickEvents(d, dly, 1e-6));
+                acc += dly; dly = nd;
+                int e0 = 0; API("opn2_atEnd", e0 = opn2_atEnd(d)); if(e0) { end0 = true; break; }
+            }
+            if(prehist == 3) API("opn2_positionSeek", opn2_positionSeek(d, 0.0)); else API("opn2_positionRewind", opn2_positionRewind(d));
+            ctx += vfmt("; pre-history: %s then %s", whole ? (end0 ? "played to the end" : "played (no end reached)") : vfmt("played %.3f s", acc).c_str(), prehist == 3 ? "seek(0)" : "rewind");
+            count(prehist == 3 ? "prehistory_then_seek0" : "prehistory_then_rewind");
+            cap.clear();
+        }
+    }
+
     // reported loop times
     double ls = 0, le = 0; API("opn2_loopStartTime", ls = opn2_loopStartTime(d)); API("opn2_loopEndTime", le = opn2_loopEndTime(d));
     {
